@@ -14,6 +14,7 @@
 //!   cvsb cvbs cvf   see shared/c20_convert.rs (model NV.Util.Convert: one record SAM -> BAM, BAM -> SAM)
 //!   cvfb cvbf cvfz cvbz   see shared/c20_convert.rs (model NV.Util.ConvertFile2: whole files from bytes, BGZF layer)
 //!   cvvh                  see shared/c20_vconv.rs (model NV.Util.ConvertVariantHdr: whole file VCF -> BCF, header block derived)
+//!   cvbh                  see shared/c20_vconv.rs (model NV.Util.ConvertVariantHdrRev: whole file BCF -> VCF, prefix read + header derived)
 //!   cvvb cvbv cvvl cvbl   see shared/c20_vconv.rs (model NV.Util.ConvertVariant: VCF <-> BCF records and record sections)
 //! Implementation-only oracles (the property itself, public generic builders only):
 //!   art fmt seed nrec hdr rdr      write through alignment::io::writer::Builder, read back through
@@ -63,7 +64,7 @@ fn run(c: &Case) -> Obs {
         "vrt" | "vtx" | "vcv" | "vcx" | "vas" => variant::run(c),
         "wk" | "wkv" | "wp" | "wpv" | "ix" | "iv" | "vf" | "fw" | "dw" | "dwf" | "dwv" | "dwvf" => dispatch::run(c),
         "cvsb" | "cvbs" | "cvf" | "cvfb" | "cvbf" | "cvfz" | "cvbz" => convert::run(c),
-        "cvvb" | "cvbv" | "cvvl" | "cvbl" | "cvvh" => vconv::run(c),
+        "cvvb" | "cvbv" | "cvvl" | "cvbl" | "cvvh" | "cvbh" => vconv::run(c),
         "aw" | "adw" | "adwf" | "adwx" | "adwv" | "adwvf" => asyncrd::run(c),
         "crx" => cram::run(c),
         _ => Obs::fail("-", "harness-unknown-kind", &c.kind),
